@@ -100,7 +100,11 @@ func c03Mutators() []depMutator {
 			return true
 		}},
 		{"other-output-index", func(b *bridgeHist, t *depTruth, d *bitcointypes.Deposit, hs *[]*bitcointypes.BlockHeader) bool {
-			d.OutputIndex ^= 1
+			if d.Version == 1 && b.lh.r.Intn(2) == 0 {
+				d.OutputIndex = 2 // the third output of a version-1 transaction (a payment to somebody else)
+			} else {
+				d.OutputIndex ^= 1
+			}
 			return true
 		}},
 		{"other-evm-address", func(b *bridgeHist, t *depTruth, d *bitcointypes.Deposit, hs *[]*bitcointypes.BlockHeader) bool {
